@@ -32,6 +32,8 @@ MODELS = [
         M(a=I(4), addunk=NUL()),
         M(a=I(4), boom=NUL()),
         M(a=I(4), boom2=NUL()),
+        M(a=I(4), boom3=NUL()),
+        M(a=I(4), boom4=NUL()),
     ]),
     ('uni', Z.Uni, [Z.Uni, Z.Sub, Z.Color], [
         M(a=I(1), b=F(1.5), c=B(True), d=M(x=I(1))),
